@@ -241,7 +241,7 @@ def case_own_generator(ctx):
 def build_cases(tier):
     cases = []
     k = 2 if tier == "quick" else 3
-    L = [("vk", 2, 1), ("vk", 3, 2), ("vk", 4, 2), ("fried", 2, 1), ("fried", 3, 1), ("fried", 4, 1), ("fried", 6, 1)]
+    L = [("vk", 2, 1), ("vk", 3, 2), ("vk", 4, 2), ("fried", 2, 1), ("fried", 3, 1), ("fried", 4, 1), ("fried", 6, 1), ("fried", 3, 2)]
     if tier == "thorough":
         L += [("fried", 7, 2), ("fried", 10, 1), ("vk", 6, 3), ("fried", 5, 4)]
     for kind, nx, param in L:
